@@ -186,6 +186,11 @@ fn main() {
 		return;
 	}
 	let start = Instant::now();
+	// per-run scratch namespace shared with the workers (removed at the end of the run)
+	let run_dir = format!("{}/run-{}", uni::scratch_base(), std::process::id());
+	std::env::set_var("GV_RUN_DIR", &run_dir);
+	sweep_stale_scratch();
+	let _ = std::fs::create_dir_all(&run_dir);
 	let only: Option<String> = std::env::var("GV_ONLY_PART").ok();
 	// all parts run concurrently (each part = its own set of worker processes)
 	let mut handles = vec![];
@@ -246,7 +251,26 @@ fn main() {
 		},
 		parts,
 	);
+	let _ = std::fs::remove_dir_all(&run_dir);
 	std::process::exit(code);
+}
+
+/// Scratch directories are named `<tag>-<pid>[-…]`; a killed run leaves its own behind.  Remove the
+/// ones whose process no longer exists.
+fn sweep_stale_scratch() {
+	let base = uni::scratch_base();
+	if let Ok(rd) = std::fs::read_dir(&base) {
+		for e in rd.flatten() {
+			let name = e.file_name().to_string_lossy().to_string();
+			let pid = name.split('-').filter_map(|t| t.parse::<u32>().ok()).next();
+			if let Some(pid) = pid {
+				if !std::path::Path::new(&format!("/proc/{}", pid)).exists() {
+					let _ = std::fs::remove_dir_all(e.path());
+					let _ = std::fs::remove_file(e.path());
+				}
+			}
+		}
+	}
 }
 
 fn selftest() {
